@@ -28,7 +28,10 @@ func (v *Vue) evalTemplate(ctx VueContext, nodes []*html.Node, componentData map
 
 		// Check for include attribute - handle inclusion first
 		if helpers.HasAttr(node, "include") {
-			vars, err := v.evalAttributes(ctx, node)
+			// Evaluate the attributes on a copy: evalAttributes rewrites the attribute list in
+			// place, and this include tag may be evaluated again (slot content filling several
+			// slots or loop iterations) with other values in scope.
+			vars, err := v.evalAttributes(ctx, helpers.ShallowCloneWithAttrs(node))
 			if err != nil {
 				return nil, err
 			}
